@@ -38,6 +38,8 @@ type atomicScn struct {
 	Delete bool `json:"delete"`
 	// LnkDir: the replaced symlink "l" points to a DIRECTORY inside the destination ("t-old", also in the list)
 	LnkDir bool `json:"lnkdir"`
+	// Special: the replaced files carry set-user-ID / set-group-ID / sticky bits (an installed program being updated)
+	Special bool `json:"special"`
 }
 
 type atomicEvent struct {
@@ -234,9 +236,12 @@ func atomicHandler(w *workerCtx, line []byte) (any, error) {
 		return nil, err
 	}
 	old := time.Unix(1_000_000, 0)
-	for _, f := range files {
+	for i, f := range files {
 		if f.old != nil {
 			os.WriteFile(filepath.Join(dest, f.name), f.old, 0o644)
+			if s.Special {
+				os.Chmod(filepath.Join(dest, f.name), []os.FileMode{0o755 | os.ModeSetuid, 0o755 | os.ModeSetgid, 0o644 | os.ModeSticky}[i%3])
+			}
 			os.Chtimes(filepath.Join(dest, f.name), old, old)
 		}
 	}
